@@ -607,10 +607,16 @@ def judge(case, acc):
                 pass
 
 
-def run_and_judge(p, drv, spec, ref, ex, opt, variant, case, acc, fp, pre='', warm=False):
+class _PoseOnly(Exception):
+    """raised by the spy in place of scipy.optimize.minimize when only its arguments are wanted."""
+
+
+def run_and_judge(p, drv, spec, ref, ex, opt, variant, case, acc, fp, pre='', warm=False, pose_only=False):
     """One run_driver() of `p` (set up, start point already set) judged against the reference `ref` of the
     plain spec `spec` (start point spec['x0']).  `pre` is prepended to every mechanism key.
-    -> {'status': raised|failed|skip|ok|viol, 'mon': Monitor, 'z': reported design or None}"""
+    -> {'status': raised|refused|failed|skip|ok|viol, 'mon': Monitor, 'z': reported design or None}
+    (refused = scipy rejected a start point that really is infeasible: discarded, the Problem stays usable;
+    posed = pose_only: run_driver() was stopped at the call of scipy.optimize.minimize, arguments captured)"""
     import openmdao.drivers.scipy_optimizer as so
     from omv.gen import qpmodel
     has_eq = any(c.get('equals') is not None for c in spec['cons'])
@@ -636,10 +642,15 @@ def run_and_judge(p, drv, spec, ref, ex, opt, variant, case, acc, fp, pre='', wa
         def spy(fun, x0, **kw):
             mon.captured = dict(kw, x0=np.array(x0, float))
             acc.count('obs:minimize-arguments-captured')
+            if pose_only:
+                raise _PoseOnly()
             return orig_min(fun, x0, **kw)
         so.minimize = spy
         try:
             p.run_driver()
+        except _PoseOnly:
+            info['status'] = 'posed'
+            return info
         except Exception as e:   # noqa
             where = _where(e)
             msg = str(e)
@@ -650,6 +661,7 @@ def run_and_judge(p, drv, spec, ref, ex, opt, variant, case, acc, fp, pre='', wa
                 # a run started where the previous one ended: a point ON an active bound / linear
                 # constraint is outside it by round-off as often as not, and scipy's keep_feasible refuses it
                 acc.skip('trust-constr-keep_feasible-refuses-warm-start-on-the-boundary')
+                info['status'] = 'refused'
                 return info
             if neg:
                 key = 'neg-scaler:%s:raises:%s@%s' % (variant, type(e).__name__, where)
@@ -662,6 +674,7 @@ def run_and_judge(p, drv, spec, ref, ex, opt, variant, case, acc, fp, pre='', wa
                     # keep_feasible=True is how the driver documents it passes linear constraints; scipy
                     # then (loudly) refuses a start that really violates them
                     acc.skip('trust-constr-linear-constraint-refuses-truly-infeasible-start')
+                    info['status'] = 'refused'
                     return info
                 key = 'run_driver-raises:new-style-linear-constraint:%s:%s@%s' % (
                     mech or 'correctly-posed', type(e).__name__, where)
@@ -1040,7 +1053,9 @@ def judge_history(case, acc):
         p2, _ = qpmodel.build(cur, driver=drv2)
         p2.final_setup()
         fp2 = fingerprint({'st': qpspec.structure(eff), 'opt': opt, 'variant': 'fresh'})
-        info2 = run_and_judge(p2, drv2, eff, ref, ex, opt, 'fresh', case, acc, fp2)
+        # (when the last run was judged and found right, the fresh Problem is only posed, not optimized)
+        info2 = run_and_judge(p2, drv2, eff, ref, ex, opt, 'fresh', case, acc, fp2,
+                              pose_only=(info['status'] == 'ok'))
         if info2['mon'] is None or info2['mon'].captured is None:
             return
         acc.count('obs:history-compared-with-fresh-problem')
@@ -1200,11 +1215,19 @@ def _acceptable(eff):
 def gen_histories(rng, base):
     """One problem -> one multi-run case per optimizer (instead of its 3 scaling variants x optimizers)."""
     spec0 = qphist.add_param(rng, base)
+    if not any(c['linear'] for c in spec0['cons']) and rng.random() < 0.5:
+        # (every g is affine in the design variables: the flag is legal on any of them)
+        spec0['cons'][int(rng.integers(len(spec0['cons'])))]['linear'] = True
+    if any(c['linear'] for c in spec0['cons']):
+        # trust-constr (keep_feasible) needs a start that satisfies the linear constraints
+        spec0['x0'] = qphist.start_point(rng, spec0, 0.05)
     vs = variants(spec0, rng, with_neg=False)
     out = []
     for opt in OPTS:
-        _, s0 = vs[int(rng.integers(len(vs)))]
-        nst = 3 if rng.random() < 0.6 else 2
+        order = rng.permutation(len(vs))
+        good = [int(k) for k in order if _acceptable(qphist.effective(vs[int(k)][1]))]
+        s0 = vs[good[0] if good else int(order[0])][1]
+        nst = 3 if rng.random() < 0.5 else 2
         stages = qphist.gen_history(rng, s0, nst, opt in EQ_OPTS, MAG, _acceptable)
         out.append({'spec': s0, 'opt': opt, 'variant': 'hist', 'stages': stages})
     return out
